@@ -63,6 +63,12 @@ func (o *c20) Step(r *StepRec) []Violation {
 		if r.OK {
 			o.hit("boundary_message_accepted")
 		}
+		if len(a.Pricing) > 60 && !strings.Contains(a.Pricing, "promotions_by_time") {
+			o.hit("price_at_the_integer_limits_past_validation")
+			if r.OK {
+				o.hit("price_at_the_integer_limits_stored")
+			}
+		}
 	}
 	return o.take()
 }
